@@ -249,6 +249,10 @@ type stdioTransport struct {
 	logger      Logger
 	contextFunc StdioContextFunc
 	session     *stdioSession
+
+	// writeMu serializes frames on stdout: responses are written from one goroutine per
+	// request plus the outgoing-message pump, and a frame is more than one Write call.
+	writeMu sync.Mutex
 }
 
 // stdioServerTransportOption configures a stdioTransport.
@@ -520,6 +524,9 @@ func (s *stdioTransport) writeResponse(response interface{}, writer io.Writer) e
 	if err != nil {
 		return fmt.Errorf("error marshaling response: %w", err)
 	}
+
+	s.writeMu.Lock()
+	defer s.writeMu.Unlock()
 
 	if _, err := writer.Write(data); err != nil {
 		return fmt.Errorf("error writing response: %w", err)
